@@ -59,68 +59,130 @@ def rint(rng, lo=-3, hi=5):
     return rng.randint(lo, hi)
 
 
-class Shadow:
-    """Approximate knowledge of the document, only used to aim the generator at valid arguments."""
+class Blk:
+    def __init__(self, name, items):
+        self.name = name
+        self.items = items        # ('P', tag, value) | ('L', tags, nvalues) | ('O',) | ('E',)
 
-    def __init__(self, nblocks=0, loops=None):
-        self.nblocks = nblocks
-        self.loops = loops or {}      # (block, cat) -> list of names
+    def loops(self):
+        return [it for it in self.items if it[0] == 'L' and it[1]]
 
-    def block(self, rng):
-        if rng.random() < 0.04 or self.nblocks == 0:
-            return rng.choice([self.nblocks, self.nblocks + 3, 0])
-        return rng.randrange(self.nblocks)
+    def pairs(self):
+        return [it for it in self.items if it[0] == 'P']
+
+    def cats(self):
+        """category prefix (as written) -> ('L', item) or ('P', [tags])"""
+        res = {}
+        for it in self.items:
+            if it[0] == 'L' and it[1] and '.' in it[1][0]:
+                res.setdefault(it[1][0][:it[1][0].index('.') + 1].lower(), ('L', it))
+            elif it[0] == 'P' and '.' in it[1]:
+                c = it[1][:it[1].index('.') + 1].lower()
+                if c not in res:
+                    res[c] = ('P', [])
+                if res[c][0] == 'P':
+                    res[c][1].append(it[1])
+        return res
 
 
-def gen_tags(rng, sh, b, cat, optional=True):
-    known = sh.loops.get((b, cat.lower()))
-    if known and rng.random() < 0.7:
-        k = rng.randint(1, len(known))
-        tags = rng.sample(known, k) if rng.random() < 0.5 else known[:k]
-        if rng.random() < 0.35:
-            extra = [n for n in NAMES if n not in tags]
-            if extra:
-                tags = tags + [rng.choice(extra)]
+def parse_dump(dump):
+    """The document dump of the harness -> list of Blk (exact state, used to aim the generator)."""
+    w = dump.split(' ')
+    i = 1
+    blocks = []
+    dec = lambda t: '' if t == '-' else bytes.fromhex(t).decode('latin-1')
+    for _ in range(int(w[0][1:])):
+        name, n = dec(w[i + 1]), int(w[i + 2])
+        i += 3
+        items = []
+        for _k in range(n):
+            k = w[i]
+            if k == 'P':
+                items.append(('P', dec(w[i + 1]), dec(w[i + 2])))
+                i += 3
+            elif k == 'L':
+                nt, nv = int(w[i + 1]), int(w[i + 2])
+                items.append(('L', [dec(t) for t in w[i + 3:i + 3 + nt]], nv))
+                i += 3 + nt + nv
+            elif k == 'O':
+                items.append(('O',))
+                i += 2
+            else:
+                items.append(('E',))
+                i += 1
+        blocks.append(Blk(name, items))
+    return blocks
+
+
+def pick_block(rng, st):
+    if not st or rng.random() < 0.03:
+        return rng.choice([len(st), len(st) + 3, 0])
+    return rng.randrange(len(st))
+
+
+def split_tag(tag):
+    if '.' in tag:
+        k = tag.index('.') + 1
+        return tag[:k], tag[k:]
+    return '', tag
+
+
+def gen_finder(rng, blk):
+    """-> (finder text, expected width or None, number of rows or None)"""
+    cats = blk.cats() if blk else {}
+    if cats and rng.random() < 0.8:
+        cat = rng.choice(sorted(cats))
+        kind, info = cats[cat]
     else:
-        tags = rng.sample(NAMES, rng.randint(1, 3))
-    out = []
-    for i, t in enumerate(tags):
-        t = rcase(rng, t)
-        if optional and ((i > 0 and rng.random() < 0.3) or (i == 0 and rng.random() < 0.03)):
-            t = '?' + t
-        out.append(t)
-    if rng.random() < 0.02:
-        out = []
-    return out
-
-
-def gen_finder(rng, sh, b):
-    cat = rng.choice(CATS)
+        cat, kind, info = rng.choice(CATS).lower(), None, None
+    if kind == 'L':
+        present = [split_tag(t)[1] for t in info[1]]
+        nrows = info[2] // len(info[1])
+        catw = len(info[1])
+    elif kind == 'P':
+        present = [split_tag(t)[1] for t in info]
+        nrows = 1
+        catw = len(info)
+    else:
+        present, nrows, catw = [], None, None
     r = rng.random()
     if r < 0.17:
         c = rng.choice([cat, cat[:-1], rcase(rng, cat), cat.upper()] + (['a.', '', '_zz'] if rng.random() < 0.2 else []))
-        return 'cat %s' % hx(c), None, cat
-    kind = 'find' if r < 0.55 else 'any' if r < 0.75 else 'oradd'
-    tags = gen_tags(rng, sh, b, cat, optional=(kind != 'any'))
-    prefix = rcase(rng, cat)
-    if rng.random() < 0.15:
-        # no prefix: full tags
-        tags = [('?' if t.startswith('?') else '') + prefix + t.lstrip('?') for t in tags]
-        prefix = ''
-    if rng.random() < 0.1:
-        tags = [rng.choice(PLAIN)] + ([('?' if rng.random() < 0.5 else '') + rng.choice(PLAIN)] if rng.random() < 0.5 else [])
-        prefix = ''
-    # assumption of the check: the tags of one finder call are distinct (case-insensitively)
-    seen, uniq = set(), []
+        return 'cat %s' % hx(c), catw, nrows
+    fk = 'find' if r < 0.6 else 'any' if r < 0.75 else 'oradd'
+    absent = [n for n in NAMES if n.lower() not in [p.lower() for p in present]] or ['q']
+    if present and rng.random() < 0.85:
+        k = rng.randint(1, len(present))
+        tags = rng.sample(present, k) if rng.random() < 0.5 else present[:k]
+    else:
+        tags = rng.sample(NAMES, rng.randint(1, 3))
+    tags = [rcase(rng, t) for t in tags]
+    if fk != 'any' and rng.random() < 0.45:
+        # ?optional columns: absent (position -1) or present
+        extra = ['?' + rng.choice(absent)] if rng.random() < 0.75 else []
+        tags = tags[:1] + [('?' + t if rng.random() < 0.3 else t) for t in tags[1:]]
+        tags.insert(rng.randint(1, len(tags)), extra[0]) if extra else None
+    if rng.random() < 0.08:
+        tags.insert(rng.randint(0, len(tags)), rng.choice(absent))     # a required tag that is missing
+    if rng.random() < 0.02:
+        tags[0] = '?' + tags[0]
+    if rng.random() < 0.02:
+        tags = []
+    seen, uniq = set(), []          # assumption of the check: tags of one finder call are distinct
     for t in tags:
         k = t.lstrip('?').lower()
         if k not in seen:
             seen.add(k)
             uniq.append(t)
     tags = uniq
-    if kind == 'oradd' and prefix:
-        sh.loops.setdefault((b, cat.lower()), [t.lstrip('?').lower() for t in tags])
-    return '%s %s %s' % (kind, hx(prefix), lst(tags)), len(tags), cat
+    prefix = rcase(rng, cat)
+    if rng.random() < 0.15:
+        tags = [('?' if t.startswith('?') else '') + prefix + t.lstrip('?') for t in tags]
+        prefix = ''
+    if blk and rng.random() < 0.08:
+        plain = [it[1] for it in blk.pairs() if '.' not in it[1]] or PLAIN
+        tags, prefix, nrows = [rng.choice(plain)], '', 1
+    return '%s %s %s' % (fk, hx(prefix), lst(tags)), len(tags), nrows
 
 
 def gen_row(rng, n):
@@ -131,115 +193,128 @@ def gen_row(rng, n):
     return [rval(rng) for _ in range(n)]
 
 
-def known_tag(rng, sh, b):
-    keys = [k for k in sh.loops if k[0] == b and sh.loops[k]]
-    if keys and rng.random() < 0.8:
-        k = rng.choice(keys)
-        return rcase(rng, k[1] + rng.choice(sh.loops[k])), len(sh.loops[k]), k
-    cat = rng.choice(CATS)
+def row_index(rng, nrows, lo=-1):
+    """a row index: mostly valid for a table with nrows rows"""
+    if nrows and rng.random() < 0.75:
+        return rng.randrange(nrows) if rng.random() < 0.8 else -rng.randint(1, nrows)
+    return rint(rng, lo - 2, 4)
+
+
+def any_tag(rng, blk):
+    """some tag: mostly one that exists in the block"""
+    if blk and blk.items and rng.random() < 0.8:
+        it = rng.choice(blk.items)
+        if it[0] == 'P':
+            return rcase(rng, it[1])
+        if it[0] == 'L' and it[1]:
+            return rcase(rng, rng.choice(it[1]))
     if rng.random() < 0.2:
-        return rng.choice(PLAIN), None, None
-    return rcase(rng, cat + rng.choice(NAMES)), None, None
+        return rng.choice(PLAIN)
+    return rcase(rng, rng.choice(CATS) + rng.choice(NAMES))
 
 
-def gen_op(rng, sh):
+def gen_op(rng, st):
     r = rng.random()
-    if r < 0.04 or sh.nblocks == 0:
-        name = rng.choice(BLOCKS)
-        pos = rint(rng, -1, 3)
-        sh.nblocks += 1       # may be wrong (duplicate name / bad position): only a guess
+    if r < 0.03 or not st:
+        used = [b.name for b in st]
+        fresh = [n for n in BLOCKS if n not in used]
+        name = rng.choice(fresh) if fresh and rng.random() < 0.8 else rng.choice(BLOCKS)
+        pos = rng.choice([-1, -1, 0, len(st), rng.randint(0, len(st)), len(st) + 1, rint(rng, -3, 4)])
         return 'addblock %s %d' % (hx(name), pos)
-    b = sh.block(rng)
-    if r < 0.16:
-        cat = rng.choice(CATS)
-        tag = rcase(rng, cat + rng.choice(NAMES)) if rng.random() < 0.8 else rng.choice(PLAIN)
+    b = pick_block(rng, st)
+    blk = st[b] if b < len(st) else None
+    nitems = len(blk.items) if blk else 0
+    if r < 0.14:
+        tag = any_tag(rng, blk)
         if rng.random() < 0.05:
             tag = rng.choice(['x', '', 'a.x'])
         return 'setpair %d %s %s' % (b, hx(tag), hx(rval(rng)))
-    if r < 0.26:
+    if r < 0.23:
         mm = rng.random() < 0.4
-        cat = rng.choice(CATS)
+        cats = sorted(blk.cats()) if blk else []
+        cat = rng.choice(cats) if cats and rng.random() < 0.6 else rng.choice(CATS)
         names = rng.sample(NAMES, rng.randint(1, 4))
         if rng.random() < 0.03:
             names = []
         rows = [gen_row(rng, len(names)) for _ in range(rng.choice([0, 1, 1, 2, 3]))]
-        prefix = cat
+        prefix = rcase(rng, cat)
         if mm:
-            prefix = rng.choice([cat, cat[:-1], rcase(rng, cat)] + (['b', ''] if rng.random() < 0.1 else []))
-        elif rng.random() < 0.07:
+            prefix = rng.choice([prefix, cat[:-1], prefix] + (['b', ''] if rng.random() < 0.1 else []))
+        elif rng.random() < 0.05:
             prefix = rng.choice(['', 'q.'])
         elif rng.random() < 0.1:
             names = [prefix + n for n in names]
             prefix = ''
-        sh.loops[(b, cat.lower())] = [n.lower() for n in names] if prefix else []
         return '%s %d %s %s %s' % ('initmm' if mm else 'initloop', b, hx(prefix), lst(names), lsts(rows))
-    if r < 0.30:
-        return 'moveitem %d %d %d' % (b, rint(rng, -4, 6), rint(rng, -4, 6))
+    if r < 0.28:
+        def ipos():
+            if nitems and rng.random() < 0.8:
+                return rng.randrange(nitems) if rng.random() < 0.7 else -rng.randint(1, nitems)
+            return rint(rng, -4, 8)
+        return 'moveitem %d %d %d' % (b, ipos(), ipos())
     if r < 0.62:
-        f, width, cat = gen_finder(rng, sh, b)
+        f, width, nrows = gen_finder(rng, blk)
         q = rng.random()
-        if q < 0.2:
+        if q < 0.18:
             t = 'look'
-        elif q < 0.5:
+        elif q < 0.45:
             t = 'append ' + lst(gen_row(rng, width))
-        elif q < 0.62:
-            s = rint(rng, -1, 3)
-            t = 'rmrows %d %d' % (s, min(s + 1, 2147483647) if rng.random() < 0.6 else rint(rng, -1, 4))
+        elif q < 0.60:
+            s = row_index(rng, nrows, 0)
+            if s < 0 and rng.random() < 0.5:
+                s = 0
+            t = 'rmrows %d %d' % (s, min(s + rng.choice([1, 1, 1, 2]), 2147483647) if rng.random() < 0.8 else rint(rng, -1, 4))
         elif q < 0.74:
-            t = 'moverow %d %d' % (rint(rng, -3, 3), rint(rng, -3, 3))
-        elif q < 0.87:
+            t = 'moverow %d %d' % (row_index(rng, nrows), row_index(rng, nrows))
+        elif q < 0.85:
             t = 'ensure'
-        elif q < 0.91:
+        elif q < 0.89:
             t = 'erase'
         else:
-            t = 'colerase %d' % rint(rng, -1, 3)
+            t = 'colerase %d' % (rng.randrange(width) if width and rng.random() < 0.8 else rint(rng, -1, 4))
         return 'table %d %s %s' % (b, f, t)
     if r < 0.86:
-        tag, width, key = known_tag(rng, sh, b)
+        loops = blk.loops() if blk else []
+        if loops and rng.random() < 0.9:
+            lp = rng.choice(loops)
+            tag, width, nrows = rcase(rng, rng.choice(lp[1])), len(lp[1]), lp[2] // len(lp[1])
+            cat = split_tag(lp[1][0])[0] or '_'
+        else:
+            tag, width, nrows, cat = any_tag(rng, blk), None, None, rng.choice(CATS)
         q = rng.random()
-        if q < 0.12:
+        if q < 0.10:
             l = 'look'
-        elif q < 0.37:
-            l = 'addrow %s %d' % (lst(gen_row(rng, width)), rint(rng, -1, 4))
-        elif q < 0.45:
+        elif q < 0.35:
+            l = 'addrow %s %d' % (lst(gen_row(rng, width)), row_index(rng, nrows))
+        elif q < 0.44:
             w = width or rng.randint(1, 3)
             k = rng.randint(0, 3) * w + (1 if rng.random() < 0.15 else 0)
-            l = 'addvalues %s %d' % (lst([rval(rng) for _ in range(k)]), rint(rng, -1, 4))
-        elif q < 0.55:
+            l = 'addvalues %s %d' % (lst([rval(rng) for _ in range(k)]), row_index(rng, nrows))
+        elif q < 0.54:
             l = 'poprow'
-        elif q < 0.65:
-            l = 'moverow %d %d' % (rint(rng, -1, 3), rint(rng, -1, 3))
-        elif q < 0.78:
-            cat = key[1] if key else rng.choice(CATS)
-            new = rng.sample(NAMES, rng.randint(1, 2))
-            names = [cat + n for n in new]
+        elif q < 0.66:
+            l = 'moverow %d %d' % (row_index(rng, nrows, 0) if rng.random() < 0.2 else (rng.randrange(nrows) if nrows else 0),
+                                   rng.randrange(nrows) if nrows and rng.random() < 0.85 else rint(rng, -1, 4))
+        elif q < 0.79:
+            names = [cat + n for n in rng.sample(NAMES + ['q', 'r2'], rng.randint(1, 2))]
             if rng.random() < 0.08:
                 names[-1] = rng.choice(['bad', '', 'x_'])
-            elif key:
-                sh.loops[key] = sh.loops[key] + [n.lower() for n in new]
-            l = 'addcols %s %s %d' % (lst(names), hx(rval(rng)), rint(rng, -2, 5))
+            pos = rng.choice([-1, 0, width or 1, rng.randint(0, (width or 1)), rint(rng, -2, 6)])
+            l = 'addcols %s %s %d' % (lst(names), hx(rval(rng)), pos)
         elif q < 0.90:
-            if key and rng.random() < 0.8:
-                n = rng.choice(sh.loops[key])
-                nm = rcase(rng, key[1] + n)
-                sh.loops[key] = [x for x in sh.loops[key] if x != n]
-            else:
-                nm = rng.choice(CATS) + rng.choice(NAMES)
-            l = 'rmcol %s' % hx(nm)
+            l = 'rmcol %s' % hx(tag if rng.random() < 0.85 else any_tag(rng, blk))
         else:
             w = width if width is not None else rng.randint(1, 3)
             if rng.random() < 0.15:
                 w = max(0, w + rng.choice([-1, 1]))
-            h = rng.randint(0, 3)
-            cols = [[rval(rng) for _ in range(h)] for _ in range(w)]
+            hgt = rng.randint(0, 3)
+            cols = [[rval(rng) for _ in range(hgt)] for _ in range(w)]
             if cols and rng.random() < 0.12:
                 cols[rng.randrange(len(cols))].append(rval(rng))
             l = 'setall ' + lsts(cols)
         return 'loop %d %s %s' % (b, hx(tag), l)
-    tag, _, key = known_tag(rng, sh, b)
+    tag = any_tag(rng, blk)
     if r < 0.89:
-        if key and tag.lower()[len(key[1]):] in sh.loops[key]:
-            sh.loops[key] = [x for x in sh.loops[key] if x != tag.lower()[len(key[1]):]]
         return 'colerase %d %s' % (b, hx(tag))
     q = rng.random()
     if q < 0.3:
@@ -256,8 +331,7 @@ def gen_op(rng, sh):
 # ---------------------------------------------------------------- initial documents
 
 def gen_cif(rng):
-    """A generated document as CIF text + the shadow knowledge about it."""
-    sh = Shadow()
+    """A generated document as CIF text."""
     out = []
     names = rng.sample(BLOCKS, rng.randint(1, 3))
     for bi, bn in enumerate(names):
@@ -277,13 +351,11 @@ def gen_cif(rng):
                     out.append(cat + t)
                 for _ in range(rng.randint(1, 4)):
                     out.append(' '.join(rval(rng) for _ in tags))
-                sh.loops[(bi, cat.lower())] = [t.lower() for t in tags]
         if rng.random() < 0.15:
             out += ['save_fr1', '_f.a 1', 'loop_', '_f.b', '_f.c', '1 2', '3 4', 'save_']
         if rng.random() < 0.3:
             out.append('%s %s' % (rng.choice(PLAIN), rval(rng)))
-    sh.nblocks = len(names)
-    return '\n'.join(out) + '\n', sh
+    return '\n'.join(out) + '\n'
 
 
 def corpus_docs():
@@ -299,25 +371,60 @@ def corpus_docs():
     return res
 
 
-def shadow_of_text(text):
-    """Crude shadow for a corpus file: number of blocks only."""
-    n = sum(1 for l in text.split(b'\n') if l.lower().startswith(b'data_'))
-    return Shadow(nblocks=n)
+def final_states(h, specs):
+    """Run the histories on gemmi and return the parsed final document of each (None if the run failed)."""
+    from concurrent.futures import ThreadPoolExecutor
+    lines = ['hist\t' + s for s in specs]
+    n = max(1, min(vlib.NPROC, (len(lines) + 199) // 200))
+    chunks = [lines[i::n] for i in range(n)]
+    with ThreadPoolExecutor(max_workers=n) as ex:
+        results = list(ex.map(lambda c: vlib._run_chunk(h, c, 600), chunks))
+    final = {}
+    for outs, _cr in results:
+        for l in outs:
+            p = l.split('\t')
+            if len(p) == 3 and p[2].startswith('D'):
+                try:
+                    final[p[1]] = parse_dump(p[2].split(';')[-1].split(':')[-1])
+                except (ValueError, IndexError):
+                    pass
+    return [final.get(s) for s in specs]
 
 
-def gen_history(rng, corpus, maxlen=60):
-    r = rng.random()
-    if r < 0.25:
-        init, sh, kind = 'empty', Shadow(), 'empty'
-    elif r < 0.85 or not corpus:
-        text, sh = gen_cif(rng)
-        init, kind = 'cif ' + hx(text), 'generated'
-    else:
-        name, text = rng.choice(corpus)
-        init, sh, kind = 'cif ' + hx(text), shadow_of_text(text), 'parsed:' + name
-    n = rng.choice([rng.randint(1, 12), rng.randint(10, maxlen), maxlen])
-    ops = [gen_op(rng, sh) for _ in range(n)]
-    return ';'.join([init] + ops), kind
+def gen_histories(rng, h, corpus, count, maxlen=60):
+    """Histories grown in segments: after each segment gemmi itself tells the generator the exact document,
+    so that the next operations can be aimed at valid (and nearly valid) arguments."""
+    hs = []
+    for _ in range(count):
+        r = rng.random()
+        if r < 0.25:
+            init, kind = 'empty', 'empty'
+        elif r < 0.85 or not corpus:
+            init, kind = 'cif ' + hx(gen_cif(rng)), 'generated'
+        else:
+            name, text = rng.choice(corpus)
+            init, kind = 'cif ' + hx(text), 'parsed:' + name
+        target = rng.choice([rng.randint(1, 12), rng.randint(10, maxlen), maxlen])
+        hs.append({'spec': init, 'kind': kind, 'target': target, 'n': 0})
+    active = hs
+    while active:
+        states = final_states(h, [x['spec'] for x in active])
+        nxt = []
+        for x, st in zip(active, states):
+            if st is None:
+                continue       # gemmi crashed or refused the start: the history stays as it is (and gets reported)
+            k = min(x['target'] - x['n'], rng.randint(2, 8))
+            ops = []
+            for _ in range(k):
+                ops.append(gen_op(rng, st))
+                if ops[-1].startswith('addblock'):
+                    break      # block indices shift: look again
+            x['spec'] += ';' + ';'.join(ops)
+            x['n'] += len(ops)
+            if x['n'] < x['target']:
+                nxt.append(x)
+        active = nxt
+    return [(x['spec'], x['kind']) for x in hs]
 
 
 # ---------------------------------------------------------------- running single histories, shrinking
